@@ -18,6 +18,7 @@ use crate::file::FileLen;
 use crate::group::FileGroupFilter;
 use crate::group::Replication::{Overreplicated, Underreplicated};
 use crate::hasher::HashFn;
+use crate::log::{Log, LogExt};
 use crate::path::Path;
 use crate::pattern::{Pattern, PatternError, PatternOpts};
 use crate::selector::PathSelector;
@@ -561,6 +562,16 @@ impl GroupConfig {
     /// Returns an iterator over the absolute input paths.
     /// Input paths may be provided as arguments or from standard input.
     pub fn input_paths(&self) -> Box<dyn Iterator<Item = Path> + Send> {
+        self.input_paths_logged(None)
+    }
+
+    /// Same as `input_paths`, but a line of the standard input that cannot be a path,
+    /// because it contains a NUL byte, is reported to the given log instead of being
+    /// dropped silently.
+    pub fn input_paths_logged<'a>(
+        &self,
+        log: Option<&'a dyn Log>,
+    ) -> Box<dyn Iterator<Item = Path> + Send + 'a> {
         let base_dir = Arc::new(self.base_dir.clone());
         if self.stdin {
             Box::new(
@@ -569,6 +580,19 @@ impl GroupConfig {
                     .map(|line| line.unwrap())
                     // an empty line is not a path, and it must not stand for the working directory
                     .filter(|line| !line.is_empty())
+                    // no file name contains a NUL byte; such a line affects only itself
+                    .filter(move |line| {
+                        let valid = !line.contains(&0);
+                        if !valid {
+                            if let Some(log) = log {
+                                log.warn(format!(
+                                    "Skipping input line containing a NUL byte: {}",
+                                    String::from_utf8_lossy(line).escape_default()
+                                ));
+                            }
+                        }
+                        valid
+                    })
                     .map(move |line| base_dir.resolve(path_from_bytes(line))),
             )
         } else {
